@@ -6,6 +6,7 @@ package jws
 // Properties C01, C02, C07, C08, C13, C16, C20 (JWS format level).
 
 //@ import "crypto/x509"
+//@ import "encoding/json"
 //@ import "time"
 //@ import "strings"
 //@ import "github.com/notaryproject/notation-core-go/signature"
@@ -360,6 +361,11 @@ package jws
 //@   ensures [err] err != nil ==> result == nil && typeof(err) == type(*signature.InvalidSignatureError)
 //@   ensures [ok] err == nil ==> JEnvOK(envelopeBytes) && typeof(result) == type(*base.Envelope) && fresh(unbox(result, type(*base.Envelope))) && unbox(result, type(*base.Envelope)).Raw == envelopeBytes && typeof(unbox(result, type(*base.Envelope)).Envelope) == type(*envelope) && unbox(unbox(result, type(*base.Envelope)).Envelope, type(*envelope)).base != nil && *unbox(unbox(result, type(*base.Envelope)).Envelope, type(*envelope)).base == JEnv(envelopeBytes)
 
+// stmt C08 (JWS): "the payload ... equal as a JSON value with exact numbers": the claims handed to the JWT library hold,
+// for exactly the members of the request's payload object, the raw text of each member's value (json.RawMessage is
+// re-emitted verbatim by encoding/json); decoding into interface{} would turn numbers into float64 (defect F6)
+//@ stmt spec func ExactMembers(m jwt.MapClaims, data []byte) bool {
+//@     (forall k string :: has(m, k) <==> JKey(data, k)) && (forall k string :: JKey(data, k) ==> typeof(m[k]) == type(json.RawMessage) && unbox(m[k], type(json.RawMessage)) == JRaw(data, k)) }
 // stmt C16/C20/C08 (JWS): Sign meets the interface contract of signature.Envelope; the message is replaced only on success
 //@ func (*envelope).Sign(e, req)
 //@   props C08 C15 C16 C20
@@ -371,6 +377,11 @@ package jws
 // stmt C08/C16: what was signed is the attribute map checked above (AttrsPlaced, crit list) and the decoded payload
 //@   assert before call jws.timestampJWS#0: [signed-attributes-are-the-checked-ones] arg0 == env && JWTSignedHeader(JoinDot3(env.Protected, env.Payload, env.Signature)) == signedAttrs && JWTSignedClaims(JoinDot3(env.Protected, env.Payload, env.Signature)) == box(payload)
 //@   assert before call jws.sign#0: [payload-is-object] payload != nil && JClaimsOK(req.Payload.Content) && !JIsNull(req.Payload.Content)
+//@   assert before call jws.sign#0: [payload-exact] ExactMembers(payload, req.Payload.Content)
+//@   loop 0
+//@     invariant payload != nil && fresh(payload) && members != nil
+//@     invariant forall k string :: visited[k] && has(members, k) ==> has(payload, k) && payload[k] == box(members[k])
+//@     invariant forall k string :: has(payload, k) ==> visited[k] && has(members, k)
 //@   assert before call jws.sign#0: [attributes-valid] AttrsPlaced(req, signedAttrs) && has(signedAttrs, "crit") && CritPlacedJ(req, JStrList(signedAttrs["crit"])) && (req.SigningScheme == signature.SigningSchemeX509 || req.SigningScheme == signature.SigningSchemeX509SigningAuthority) && arg1 == signedAttrs && arg0 == payload
 
 //@ func (*localSigningMethod).CertificateChain(s)
